@@ -463,6 +463,9 @@ def run_operator(sc: dict, wall_limit: float = 60.0) -> dict:
                 async def on_event(event: Any, name: Any, namespace: Any, body: Any, **_: Any) -> None:
                     calls.append({"t": loop.time(), "res": plural, "ns": namespace, "name": name, "type": event["type"],
                                   "rv": body.get("metadata", {}).get("resourceVersion")})
+                    d = float(sc.get("handler_sleep") or 0.0)
+                    if d > 0 and event["type"] is not None:
+                        await asyncio.sleep(d)      # a handler in flight: `aiotasks.stop()` of its watcher suspends
                 return on_event
             kopf.on.event(RES_BY_NAME[p].group, RES_BY_NAME[p].version, p, id=f"ev-{p}", registry=reg)(mk(p))
         st = sc.get("settings", {})
@@ -470,6 +473,7 @@ def run_operator(sc: dict, wall_limit: float = 60.0) -> dict:
             "watching.reconnect_backoff": 0.125,
             "watching.server_timeout": st.get("server_timeout", 512.0),
             "networking.error_backoffs": tuple(st.get("backoffs", (0.5, 1.0))),
+            "queueing.exit_timeout": st.get("exit_timeout", 2.0),
         })
         kw: dict = {"standalone": True}
         if sc.get("clusterwide", True):
